@@ -244,6 +244,13 @@ theorem drive_only_when_told_or_finished (sd c : Bool) (f : Fut) (h : PollAct.dr
     sd = true ∨ (c = false ∧ f = .doneOk) := by
   cases sd <;> cases c <;> cases f <;> simp [poll] at h ⊢
 
+/-- the task executor of track preparation: a failed task is reported and nothing else happens (no next task is asked
+    for, no further poll); every wake-up has exactly one outcome -/
+theorem task_executor_failure_is_reported :
+    pollTaskExecutor .doneExc = [.sendFailure] ∧ ∀ f, ((pollTaskExecutor f).filter (·.isOutcome)).length = 1 := by
+  refine ⟨rfl, fun f => ?_⟩
+  cases f <;> rfl
+
 /-! ### non-vacuity (tests, labelled as tests) -/
 
 example : outcome (run {} [.engineStarted, .preparationComplete, .taskFinished, .failure, .benchComplete, .engineStopped]) = .failed ∧
